@@ -210,3 +210,126 @@ class SeededGeneration(E2Contract):
         return [eq("none/global-state", out["none/uses-global-stream"], True, "without seed the global numpy state is the source"),
                 eq("none/successive-calls-continue-the-global-stream", out["none/continues-the-global-stream"], True,
                    "unseeded calls consume the global stream onwards; nothing on the way re-seeds it")]
+
+
+# ------------------------------------------------------------------ which distribution, with which sample size, goes where
+
+def _routing_case(W, entry, scale):
+    """(call, expected) for one entry point: expected is a list of (position in the output, sample size, probability vector)"""
+    np = W.np
+    dg = W.mod(DG)
+    d = _concrete_dists(W)
+    sz = lambda *xs: [x * scale for x in xs]
+    if entry == "dg.empi_dists_sequence_from_prob_dists":
+        sizes = [sz(10, 20), sz(5, 7)]
+        return (lambda s: dg.generate_empi_dists_sequence_from_prob_dists(d, sizes, s)), [((i, k), sizes[i][k], d[i]) for i in range(2) for k in range(2)]
+    if entry == "dg.empi_dist_sequence_from_prob_dist":
+        sizes = sz(10, 20, 40)
+        return (lambda s: dg.generate_empi_dist_sequence_from_prob_dist(d[1], sizes, s)), [((k,), sizes[k], d[1]) for k in range(3)]
+    c_sys, states, povms = exact_testers(W, "1q", False)
+    STD = "quara.protocol.qtomography.standard."
+    true_state = W.mod("quara.objects.state").State(c_sys, np.array([1, 0.3, -0.2, 0.5], dtype=np.float64) / np.sqrt(2), is_physicality_required=False)
+    if entry == "Experiment.generate_empi_dists_sequence":
+        exp = W.mod("quara.qcircuit.experiment").Experiment(states=[true_state], povms=povms, gates=[], schedules=[[("state", 0), ("povm", j)] for j in range(3)])
+        sizes = [sz(10, 11, 12), sz(20, 21, 22)]
+        ps = exp.calc_prob_dists()
+        return (lambda s: exp.generate_empi_dists_sequence(sizes, s)), [((j, k), sizes[k][j], ps[j]) for j in range(3) for k in range(2)]
+    kind, meth = entry.split(".")
+    if kind == "StandardQst":
+        qt = W.mod(STD + "standard_qst").StandardQst(povms, on_para_eq_constraint=True)
+        obj = true_state
+    elif kind == "StandardPovmt":
+        qt = W.mod(STD + "standard_povmt").StandardPovmt(states, 2, on_para_eq_constraint=True)
+        obj = W.mod("quara.objects.povm").Povm(c_sys, [np.array([0.8, 0.1, 0.2, 0.3], dtype=np.float64), np.array([np.sqrt(2) - 0.8, -0.1, -0.2, -0.3], dtype=np.float64)],
+                                                is_physicality_required=False)
+    elif kind == "StandardQpt":
+        qt = W.mod(STD + "standard_qpt").StandardQpt(states, povms, on_para_eq_constraint=True)
+        hs = np.array([[1, 0, 0, 0], [0, 0.5, 0.25, 0], [0, -0.25, 0.5, 0], [0.125, 0, 0, 0.75]], dtype=np.float64)
+        obj = W.mod("quara.objects.gate").Gate(c_sys, hs, is_physicality_required=False)
+    else:
+        qt = W.mod(STD + "standard_qmpt").StandardQmpt(states, povms, 2, on_para_eq_constraint=True)
+        h0 = np.array([[0.5, 0, 0, 0.25], [0, 0.25, 0, 0], [0, 0, 0.25, 0], [0.25, 0, 0, 0.5]], dtype=np.float64)
+        h1 = np.array([[0.5, 0, 0, -0.25], [0, 0.125, 0, 0], [0, 0, 0.125, 0], [-0.25, 0, 0, 0.5]], dtype=np.float64)
+        obj = W.mod("quara.objects.mprocess").MProcess(c_sys, [h0, h1], is_physicality_required=False)
+    ps = qt.generate_prob_dists_sequence(obj) if hasattr(qt, "generate_prob_dists_sequence") else qt.calc_prob_dists(obj)
+    J = qt.num_schedules
+    if meth == "generate_empi_dists":
+        n = scale * 10
+        return (lambda s: qt.generate_empi_dists(obj, n, s)), [((j,), n, ps[j]) for j in range(J)]
+    if meth == "generate_empi_dist":
+        n = scale * 10
+        j = J - 1
+        return (lambda s: [qt.generate_empi_dist(j, obj, n, s)]), [((0,), n, ps[j])]
+    sizes = sz(10, 20)
+    return (lambda s: qt.generate_empi_dists_sequence(obj, sizes, s)), [((k, j), sizes[k], ps[j]) for k in range(2) for j in range(J)]
+
+
+def _at(x, pos):
+    for i in pos:
+        x = x[i]
+    return x
+
+
+class SampleRouting(E2Contract):
+    """every empirical distribution returned is drawn from ITS schedule's probability vector with ITS requested sample size, and labelled with that size"""
+    name = "data generation / which distribution, which size, where"
+    prop = "C14"
+    targets = (DG + ":generate_empi_dist_sequence_from_prob_dist", DG + ":generate_empi_dists_sequence_from_prob_dists",
+               "quara.qcircuit.experiment:Experiment.generate_empi_dists_sequence", "quara.qcircuit.experiment:Experiment.generate_empi_dist_sequence",
+               "quara.protocol.qtomography.standard.standard_qst:StandardQst.generate_empi_dist", "quara.protocol.qtomography.standard.standard_qst:StandardQst.generate_empi_dists",
+               "quara.protocol.qtomography.standard.standard_qst:StandardQst.generate_empi_dists_sequence",
+               "quara.protocol.qtomography.standard.standard_povmt:StandardPovmt.generate_empi_dist", "quara.protocol.qtomography.standard.standard_povmt:StandardPovmt.generate_empi_dists_sequence",
+               "quara.protocol.qtomography.standard.standard_qpt:StandardQpt.generate_empi_dist", "quara.protocol.qtomography.standard.standard_qpt:StandardQpt.generate_empi_dists_sequence",
+               "quara.protocol.qtomography.standard.standard_qmpt:StandardQmpt.generate_empi_dist", "quara.protocol.qtomography.standard.standard_qmpt:StandardQmpt.generate_empi_dists_sequence")
+    frame = False
+    n_conformance = 0
+    max_paths = 64
+
+    def configs(self, tier):
+        out = ["dg.empi_dists_sequence_from_prob_dists", "dg.empi_dist_sequence_from_prob_dist", "Experiment.generate_empi_dists_sequence"]
+        for k in ("StandardQst", "StandardPovmt", "StandardQpt", "StandardQmpt"):
+            for m in ("generate_empi_dists", "generate_empi_dist", "generate_empi_dists_sequence"):
+                out.append(f"{k}.{m}")
+        return out
+
+    def inputs(self, W, cfg, mk):
+        return dict(probe=mk.real("probe"))
+
+    def run(self, W, cfg, inp):
+        if W.symbolic:
+            f, expected = _routing_case(W, cfg, 1)
+            symrandom.reset()
+            res = f(7)
+            log = {(e[0], e[1]): e for e in symrandom.DRAW_LOG if e[2] == "multinomial"}
+            labels, drawn_n, drawn_p, want_n, want_p = [], [], [], [], []
+            for pos, n, p in expected:
+                lab, dist = _at(res, pos)
+                tags = symrandom.draw_tags(dist)
+                e = log.get(next(iter(tags))) if len(tags) == 1 else None
+                labels.append(lab)
+                drawn_n.append(e[4] if e else None)
+                drawn_p.append(list(e[5]) if e else None)
+                want_n.append(n)
+                want_p.append(list(W.np.asarray(p).a.reshape(-1).tolist()) if hasattr(W.np.asarray(p), "a") else list(p))
+            return dict(labels=labels, drawn_n=drawn_n, drawn_p=drawn_p, want_n=want_n, want_p=want_p, n_draws=len(log), n_expected=len(expected))
+        import numpy
+        f, expected = _routing_case(W, cfg, 2000)
+        res = f(7)
+        labels, want_n, ok_p, drawn = [], [], [], []
+        for pos, n, p in expected:
+            lab, dist = _at(res, pos)
+            labels.append(int(lab))
+            want_n.append(int(n))
+            counts = numpy.asarray(dist, dtype=float) * float(lab)
+            # the number of samples actually drawn shows in the data: frequencies times the label are whole counts summing to the label
+            drawn.append(int(lab) if (numpy.all(numpy.abs(counts - numpy.round(counts)) < 1e-6) and abs(counts.sum() - float(lab)) < 1e-6) else -1)
+            p = numpy.asarray(p, dtype=float)
+            ok_p.append(bool(numpy.all(numpy.abs(numpy.asarray(dist, dtype=float) - p) <= 6.0 * numpy.sqrt(p * (1 - p) / n) + 1e-9)))
+        return dict(labels=labels, drawn_n=drawn, drawn_p=ok_p, want_n=want_n, want_p=[True] * len(ok_p), n_draws=len(expected), n_expected=len(expected))
+
+    def post(self, W, cfg, inp, out):
+        return [eq("attached-size==requested-size", out["labels"], out["want_n"], "the sample size attached to each empirical distribution is the one requested for that position"),
+                eq("drawn-with-the-requested-size", out["drawn_n"], out["want_n"], "each distribution is drawn with its requested number of samples"),
+                eq("drawn-from-its-own-schedule", out["drawn_p"], out["want_p"],
+                   "each distribution is drawn from the probability vector of ITS schedule (natively: within 6 standard errors at 2000 x the sample size)"),
+                eq("one-draw-per-requested-distribution", out["n_draws"], out["n_expected"], "exactly one multinomial draw per returned distribution")]
